@@ -387,7 +387,20 @@ struct Scenario {
       observe_all();
     } else if (s.t == "preply") { peer_flush_held(); peer_reply(s); }
     else if (s.t == "pclose") peer_close();
-    else if (s.t == "adv") { world.advance_ms(s.N(0, 0)); }
+    else if (s.t == "adv") {
+      int64_t ms = s.N(0, 0);
+      if (s.N(1, 0) > 0) {
+        // to the deadline of one outstanding call, give or take a millisecond: expiry and arrival at the same instant
+        std::vector<const Call *> fin;
+        for (auto &k : calls) if (k.deadline_us >= 0 && k.deadline_us > K->now_us && k.deadline_us - K->now_us < 3600ll * 1000000) fin.push_back(&k);
+        if (!fin.empty()) {
+          const Call *k = fin[(size_t)(s.N(1) - 1) % fin.size()];
+          int64_t t = (k->deadline_us - K->now_us) / 1000 + s.N(2, 0);
+          if (t > 0) { ms = t; counters["probe:clock_moved_to_a_deadline"]++; }
+        }
+      }
+      world.advance_ms(ms);
+    }
     else core::harness_error("unknown step %s", s.t.c_str());
   }
 
@@ -628,7 +641,7 @@ Plan gen_pending(uint64_t seed, bool th) {
     else if (x < 60) loop();
     else if (x < 66) add("dispatch");
     else if (x < 71) add("rwd", {nthreads && r.pct(50) ? (int64_t)r.range(1, 120) : 0});
-    else if (x < 79) add("adv", {r.pct(60) ? (int64_t)r.range(1, 300) : (int64_t)r.range(300, 40000)});
+    else if (x < 79) add("adv", {r.pct(60) ? (int64_t)r.range(1, 300) : (int64_t)r.range(300, 40000), r.pct(30) ? (int64_t)r.range(1, 8) : 0, (int64_t)r.range(0, 2) - 1});
     else if (x < 84) { if (nthreads && r.pct(60)) add("block", {(int64_t)r.below(8)}); else add("cancel", {(int64_t)r.below(8)}); }
     else if (x < 90) add("block", {(int64_t)r.below(8)});
     else if (x < 94) add("poll", {(int64_t)r.below(8)});
